@@ -66,6 +66,9 @@ type Block struct {
 	Time    uint64
 	Bloom   []byte
 	Txs     []Tx
+	// Rewards are the block and uncle reward traces some chains (proof-of-work era, AuRa) report at the end of
+	// trace_block, with a null transaction hash and position; From is the author.
+	Rewards []Trace
 }
 
 func (b *Block) HashHex() string { return hex.EncodeToString(b.Hash) }
